@@ -27,8 +27,9 @@ from PyMatterSim.static.shape import gyration_tensor
 # particles are excluded by the oracle, the warnings are noise in the worker's stderr
 warnings.filterwarnings("ignore", category=RuntimeWarning)
 
-RULE = ("S2: d{2,3} x cell{ortho,tri} x K 1..3 x width matrices [type_i,type_j] (symmetric and not) x bins 10..60 x "
-        "periodicity masks x frames 1..2, non-trivial = some asserted particle has >= 2 contributing neighbours; "
+RULE = ("S2: d{2,3} x cell{ortho,tri} x K 1..3 x width matrices [type_i,type_j] (symmetric and not) x bins 2..60 x "
+        "periodicity masks x frames 1..2 (sheared class: 2..3 frames with per-frame tilt) x repeated calls {same "
+        "object, positions updated in place, two objects alternately}, non-trivial = some asserted particle has >= 2 contributing neighbours; "
         "tetrahedral: 3D N>=5 (N=5 forced in 1/4 of the cases) x cells x masks x frames, non-trivial = >= 1 particle "
         "with an unambiguous 4-nearest set and a value != 1; perfect tetrahedron / diamond: value 1; far-move: a "
         "non-neighbour moved away; nematic: angles x frames 1..3 x optional neighbour file, non-trivial = N >= 2 and "
@@ -51,7 +52,10 @@ MANIFEST = {
              "trapezoid integral; 2D/3D, 1-3 species with [type_i,type_j] widths, 10-60 bins, orthogonal and "
              "triclinic cells, periodicity masks, 1-2 frames; also the saved g and .npy files), q8_tetrahedral "
              "(1 - 3/32 sum over the four nearest; N >= 5 including exactly 5; rotated/scaled perfect tetrahedra and "
-             "diamond lattices give 1 to 1e-12; moving a non-neighbour farther away changes nothing), "
+             "diamond lattices give 1 to 1e-12; moving a non-neighbour farther away changes nothing), both also on "
+             "sheared trajectories (2-3 frames whose tilt factors differ while the edge lengths stay equal, every "
+             "frame against the oracle with its own cell matrix) and on repeated calls (same S2 object twice, "
+             "positions overwritten in place between calls, two S2 objects used alternately), "
              "NematicOrder.tensor (Q = (d u u^T - I)/2, neighbour average from a synthetic list file, trace and "
              "eigenvalue scalars, their equality in 2D, .npy side files) and gyration_tensor (2D/3D descriptors from "
              "the eigenvalues of the centred second-moment tensor)."),
@@ -104,31 +108,88 @@ def fracs_st(draw, d, N, exact_ok):
 
 
 @st.composite
-def config_case(draw, d, N, cell, K=1, frames=(1, 2)):
-    F = draw(st.integers(*frames))
-    fr, kinds = [], []
+def sheared_cells(draw, cell, F):
+    """Per-frame cells of a sheared trajectory: same edge lengths and origin, tilt factors drawn per frame
+    (|tilt| <= half an edge), at least one frame differing from frame 0."""
+    d = cell["d"]
+    L = np.diag(cell["H"]).copy()
+    cells = []
     for _ in range(F):
-        f, kind = draw(fracs_st(d, N, exact_ok=cell["kind"] == "ortho"))
-        fr.append(f)
-        kinds.append(kind)
-    ppp = draw(ppp_st(d, True))
-    offs = np.zeros((N, d))
-    if draw(st.booleans()):
-        offs = draw(hnp.arrays(np.int64, (N, d), elements=st.integers(-1, 1))).astype(float) * ppp
-    return {"d": d, "cell": cell, "pos": [cell["lo"] + (f + offs) @ cell["H"] for f in fr],
-            "types": draw(types_st(N, K)), "ppp": ppp, "K": K, "kind": "+".join(kinds),
-            "timesteps": [100 * k for k in range(F)], "outside": bool(np.any(offs))}
+        H = np.diag(L)
+        t = lambda edge: draw(st.one_of(st.just(0.0), nice_float(-0.5, 0.5))) * edge  # noqa: E731
+        H[1, 0] = t(L[0])
+        if d == 3:
+            H[2, 0] = t(L[0])
+            H[2, 1] = t(L[1])
+        cells.append({"d": d, "kind": "tri", "H": H, "lo": cell["lo"].copy(), "origin": cell["origin"]})
+    if all(np.array_equal(c["H"], cells[0]["H"]) for c in cells[1:]):
+        k = draw(st.integers(1, F - 1))
+        cells[k]["H"][1, 0] += (0.25 if cells[k]["H"][1, 0] <= 0 else -0.25) * L[0]
+    return cells
 
 
 @st.composite
-def s2_case(draw, d):
-    N = draw(st.integers(4, 28))
+def config_case(draw, d, N, cell, K=1, frames=(1, 2), shear=False):
+    F = draw(st.integers(*frames))
+    cells = draw(sheared_cells(cell, F)) if shear else [cell] * F
+    affine = shear and draw(st.booleans())
+    fr, kinds = [], []
+    for k in range(F):
+        if affine and k > 0:  # the same particles carried along by the shear, plus a small random motion
+            f, kind = (fr[0] + 0.02 * draw(dense((N, d), fl(-1.0, 1.0)))) % 1.0, "affine"
+        else:
+            f, kind = draw(fracs_st(d, N, exact_ok=cell["kind"] == "ortho" and not shear))
+        fr.append(f)
+        kinds.append(kind)
+    ppp = draw(ppp_st(d, True))
+    if shear and draw(st.booleans()):
+        ppp = np.ones(d, dtype=int)
+    offs = np.zeros((N, d))
+    if draw(st.booleans()):
+        offs = draw(hnp.arrays(np.int64, (N, d), elements=st.integers(-1, 1))).astype(float) * ppp
+    case = {"d": d, "cell": cells[0], "pos": [c["lo"] + (f + offs) @ c["H"] for f, c in zip(fr, cells)],
+            "types": draw(types_st(N, K)), "ppp": ppp, "K": K, "kind": "+".join(kinds),
+            "timesteps": [100 * k for k in range(F)], "outside": bool(np.any(offs))}
+    if shear:
+        case["cells"] = cells
+    return case
+
+
+def cells_of(case):
+    return case.get("cells") or [case["cell"]] * len(case["pos"])
+
+
+def snaps_of(case, pos=None):
+    """Snapshots with each frame's own cell (hmatrix / boxbounds / realbounds)."""
+    from PyMatterSim.reader.reader_utils import Snapshots
+
+    pos = case["pos"] if pos is None else pos
+    snaps = [gen.snapshot_from(c, p, case["types"], ts) for c, p, ts in zip(cells_of(case), pos, case["timesteps"])]
+    return Snapshots(nsnapshots=len(snaps), snapshots=snaps)
+
+
+def shear_tags(case):
+    if "cells" not in case:
+        return []
+    H0 = case["cells"][0]["H"]
+    out = ["sheared", "affine" if "affine" in case["kind"] else "independent-frames"]
+    if not np.any(H0 - np.diag(np.diag(H0))):
+        out.append("frame0-untilted")
+    return out
+
+
+@st.composite
+def s2_case(draw, d=None, shear=False):
+    if d is None:
+        d = draw(st.sampled_from([2, 3]))
+    N = draw(st.integers(4, 20 if shear else 28))
     K = draw(st.integers(1, min(3, N)))
     rho = draw(st.sampled_from([0.6, 1.0, 2.0]))
     Lm = (N / rho) ** (1.0 / d)
-    cell = draw(cell_st(d, "any", lmin=0.75 * Lm, lmax=1.3 * Lm, origin="any"))
-    case = draw(config_case(d, N, cell, K=K, frames=(1, 2)))
-    ndelta = draw(st.integers(10, 60))
+    cell = draw(cell_st(d, "tri" if shear else "any", lmin=0.75 * Lm, lmax=1.3 * Lm, origin="any"))
+    case = draw(config_case(d, N, cell, K=K, frames=(2, 3) if shear else (1, 2), shear=shear))
+    # minimal bin counts (2..9) in about one case out of six (tied to N: Hypothesis over-samples small selectors)
+    ndelta = draw(st.integers(2, 9)) if N % 6 == 0 else draw(st.integers(10, 60))
     frac = draw(st.sampled_from([0.65, 0.8, 0.97]))
     rmax = frac * float(np.diag(cell["H"]).min()) / 2.0
     rdelta = rmax / (ndelta - 0.5)
@@ -137,7 +198,8 @@ def s2_case(draw, d):
     if draw(st.booleans()):
         sig = np.triu(sig) + np.triu(sig, 1).T
     case.update(sigmas=sig, rdelta=rdelta, ndelta=ndelta, savegr=draw(st.booleans()),
-                outputfile=draw(st.sampled_from(["", "s2out"])))
+                outputfile=draw(st.sampled_from(["", "s2out"])),
+                again=draw(st.sampled_from(["no", "no", "no", "repeat", "inplace", "inplace", "alternate"])))
     return case
 
 
@@ -157,13 +219,40 @@ def _rm(*names):
             os.remove(n)
 
 
+def _s2_compare(case, pos, s2, gout, label, cnt):
+    """Compare one particle_s2 result with the oracle for the positions `pos` (each frame with its own cell)."""
+    d, ppp, nb = case["d"], np.asarray(case["ppp"]), case["ndelta"]
+    N = len(case["types"])
+    for f, cell in enumerate(cells_of(case)):
+        H = cell["H"]
+        g, amb, r, rho = ref.particle_g(pos[f], case["types"], H, ppp, case["sigmas"], case["rdelta"], nb)
+        want = ref.s2_from_g(g, r, rho, d)
+        scale = ref.s2_scale(r, rho, d)
+        ok = ~amb & np.isfinite(want) & (g.min(axis=1) > 1e-290)
+        cnt["ambiguous"] += int(amb.sum())
+        cnt["excluded"] += int((~amb & ~ok).sum())
+        cnt["asserted"] += int(ok.sum())
+        if ok.any():
+            close(f"S2 {label}frame {f}", s2[f][ok], want[ok], rtol=1e-9, atol=1e-12 * scale)
+            if gout is not None:
+                close(f"particle g {label}frame {f}", gout[f][ok], g[ok], rtol=1e-9, atol=1e-200)
+            # contributing neighbours (for the non-trivial rule)
+            ii, jj, _, dist, _ = geom.pair_table(pos[f], H, ppp)
+            c = np.bincount(ii[dist < r[-1]], minlength=N)
+            cnt["rich"] = cnt["rich"] or bool(np.any(c[ok] >= 2))
+
+
 def check_s2(case):
-    d, H, ppp = case["d"], case["cell"]["H"], np.asarray(case["ppp"])
+    d, ppp = case["d"], np.asarray(case["ppp"])
     F, N, nb = len(case["pos"]), len(case["types"]), case["ndelta"]
-    snaps = gen.snapshots_from(case)
+    snaps = snaps_of(case)
     of = case["outputfile"]
     _rm("s2out.npy", "particle_gr.s2out.npy", "particle_gr..npy")
-    obj = S2(snapshots=snaps, sigmas=case["sigmas"].copy(), ppp=ppp.copy(), rdelta=case["rdelta"], ndelta=nb)
+
+    def make(sn):
+        return S2(snapshots=sn, sigmas=case["sigmas"].copy(), ppp=ppp.copy(), rdelta=case["rdelta"], ndelta=nb)
+
+    obj = make(snaps)
     out = obj.particle_s2(savegr=case["savegr"], outputfile=of)
     if case["savegr"]:
         require(isinstance(out, tuple) and len(out) == 2, lambda: f"savegr=True must return (s2, g), got {type(out)}")
@@ -180,41 +269,52 @@ def check_s2(case):
             require(os.path.exists("particle_gr." + of + ".npy"), "savegr with outputfile: g file missing")
             same("saved g file", np.load("particle_gr." + of + ".npy"), gout)
 
-    asserted = excluded = ambiguous = 0
-    rich = False
-    for f in range(F):
-        g, amb, r, rho = ref.particle_g(case["pos"][f], case["types"], H, ppp, case["sigmas"], case["rdelta"], nb)
-        want = ref.s2_from_g(g, r, rho, d)
-        scale = ref.s2_scale(r, rho, d)
-        ok = ~amb & np.isfinite(want) & (g.min(axis=1) > 1e-290)
-        ambiguous += int(amb.sum())
-        excluded += int((~amb & ~ok).sum())
-        asserted += int(ok.sum())
-        if ok.any():
-            close(f"S2 frame {f}", s2[f][ok], want[ok], rtol=1e-9, atol=1e-12 * scale)
-            if gout is not None:
-                close(f"particle g frame {f}", gout[f][ok], g[ok], rtol=1e-9, atol=1e-200)
-            # contributing neighbours (for the non-trivial rule)
-            ii, jj, _, dist, _ = geom.pair_table(case["pos"][f], H, ppp)
-            cnt = np.bincount(ii[dist < r[-1]], minlength=N)
-            rich = rich or bool(np.any(cnt[ok] >= 2))
+    cnt = {"asserted": 0, "excluded": 0, "ambiguous": 0, "rich": False}
+    _s2_compare(case, case["pos"], s2, gout, "", cnt)
+
+    # state carried between calls: every call must describe the contents at call time
+    again = case.get("again", "no")
+    sink = {"asserted": 0, "excluded": 0, "ambiguous": 0, "rich": False}
+    rev = [p[::-1].copy() for p in case["pos"]]  # same particles' positions handed to the types in reverse order
+    if again == "repeat":
+        r2 = arr("particle_s2 (second call)", obj.particle_s2(), shape=(F, N))
+        _s2_compare(case, case["pos"], r2, None, "second call on the same object, ", sink)
+    elif again == "inplace":
+        for sn, p in zip(snaps.snapshots, rev):
+            sn.positions[...] = p
+        r2 = arr("particle_s2 (after in-place update)", obj.particle_s2(), shape=(F, N))
+        _s2_compare(case, rev, r2, None, "after positions were updated in place, ", sink)
+    elif again == "alternate":
+        objb = make(snaps_of(case, rev))
+        rb = arr("particle_s2 (object B)", objb.particle_s2(), shape=(F, N))
+        _s2_compare(case, rev, rb, None, "second S2 object, ", sink)
+        ra = arr("particle_s2 (object A again)", obj.particle_s2(), shape=(F, N))
+        _s2_compare(case, case["pos"], ra, None, "first S2 object after the second was used, ", sink)
+
     tags = [f"d{d}", case["cell"]["kind"], f"K{case['K']}", f"frames{F}",
             "mask-partial" if not ppp.all() else "mask-full",
             "sigma-sym" if np.array_equal(case["sigmas"], case["sigmas"].T) else "sigma-asym",
-            "bins<=20" if nb <= 20 else ("bins<=40" if nb <= 40 else "bins>40"),
+            "bins<10" if nb < 10 else ("bins<=20" if nb <= 20 else ("bins<=40" if nb <= 40 else "bins>40")),
             "savegr" if case["savegr"] else "nogr", "file" if of else "nofile",
-            "outside" if case["outside"] else "inside"]
-    if excluded:
+            "outside" if case["outside"] else "inside", "again-" + again] + shear_tags(case)
+    if cnt["excluded"]:
         tags.append("has-excluded")
-    if asserted == 0:
+    if cnt["asserted"] == 0:
         tags.append("nothing-asserted")
-    return {"nontrivial": bool(rich), "tags": tags,
-            "extra": {"particles_asserted": asserted, "particles_excluded_g0": excluded,
-                      "particles_ambiguous": ambiguous}}
+    return {"nontrivial": bool(cnt["rich"]), "tags": tags,
+            "extra": {"particles_asserted": cnt["asserted"], "particles_excluded_g0": cnt["excluded"],
+                      "particles_ambiguous": cnt["ambiguous"], "particles_asserted_repeat_calls": sink["asserted"]}}
+
+
+def describe_cfg(case):
+    dsc = gen.describe_config(case)
+    if "cells" in case:
+        dsc["H_per_frame"] = [np.round(c["H"], 4).tolist() for c in case["cells"]]
+    return dsc
 
 
 def describe_s2(case):
-    dsc = gen.describe_config(case)
+    dsc = describe_cfg(case)
     dsc.update(sigmas=case["sigmas"].tolist(), rdelta=case["rdelta"], ndelta=case["ndelta"])
     return dsc
 
@@ -223,17 +323,18 @@ def describe_s2(case):
 
 
 @st.composite
-def tetra_case(draw):
+def tetra_case(draw, shear=False):
     five = draw(st.integers(0, 3)) == 0
     N = 5 if five else draw(st.integers(6, 16))
-    cell = draw(cell_st(3, "any", lmin=1.0, lmax=20.0, origin="any"))
-    case = draw(config_case(3, N, cell, K=1, frames=(1, 2)))
+    cell = draw(cell_st(3, "tri" if shear else "any", lmin=1.0, lmax=20.0, origin="any"))
+    case = draw(config_case(3, N, cell, K=1, frames=(2, 3) if shear else (1, 2), shear=shear))
     case["outputfile"] = draw(st.sampled_from(["", "tetra"]))
+    case["again"] = draw(st.sampled_from(["no", "no", "inplace"]))
     return case
 
 
-def _call_tetra(case, name="q8_tetrahedral"):
-    snaps = gen.snapshots_from(case)
+def _call_tetra(case, name="q8_tetrahedral", snaps=None):
+    snaps = snaps_of(case) if snaps is None else snaps
     F, N = len(case["pos"]), len(case["types"])
     of = case.get("outputfile", "")
     _rm("tetra.npy")
@@ -244,27 +345,41 @@ def _call_tetra(case, name="q8_tetrahedral"):
     return q
 
 
-def check_tetra(case):
-    H, ppp = case["cell"]["H"], np.asarray(case["ppp"])
-    F, N = len(case["pos"]), len(case["types"])
-    q = _call_tetra(case)
-    asserted = ambiguous = 0
-    nontrivial = False
-    for f in range(F):
-        want, amb, _, _, _ = ref.tetrahedral(case["pos"][f], H, ppp)
+def _tetra_compare(case, pos, q, label, cnt):
+    ppp = np.asarray(case["ppp"])
+    for f, cell in enumerate(cells_of(case)):
+        want, amb, _, _, _ = ref.tetrahedral(pos[f], cell["H"], ppp)
         ok = ~amb
-        asserted += int(ok.sum())
-        ambiguous += int(amb.sum())
+        cnt["asserted"] += int(ok.sum())
+        cnt["ambiguous"] += int(amb.sum())
         if ok.any():
-            close(f"tetrahedral order frame {f}", q[f][ok], want[ok], rtol=1e-9, atol=1e-12)
-            nontrivial = nontrivial or bool(np.any(np.abs(want[ok] - 1.0) > 1e-6))
+            close(f"tetrahedral order {label}frame {f}", q[f][ok], want[ok], rtol=1e-9, atol=1e-12)
+            cnt["nontrivial"] = cnt["nontrivial"] or bool(np.any(np.abs(want[ok] - 1.0) > 1e-6))
+
+
+def check_tetra(case):
+    ppp = np.asarray(case["ppp"])
+    F, N = len(case["pos"]), len(case["types"])
+    snaps = snaps_of(case)
+    q = _call_tetra(case, snaps=snaps)
+    cnt = {"asserted": 0, "ambiguous": 0, "nontrivial": False}
+    _tetra_compare(case, case["pos"], q, "", cnt)
+    again = case.get("again", "no")
+    if again == "inplace":  # same Snapshots object, new contents
+        rot = [np.roll(p, 1, axis=0) * 1.0 for p in case["pos"]]
+        new = [c["lo"] + ((p - c["lo"]) @ np.linalg.inv(c["H"]) * 0.9 + 0.05) @ c["H"] for p, c in zip(rot, cells_of(case))]
+        for sn, p in zip(snaps.snapshots, new):
+            sn.positions[...] = p
+        q2 = _call_tetra(case, "q8_tetrahedral (after in-place update)", snaps=snaps)
+        _tetra_compare(case, new, q2, "after positions were updated in place, ",
+                       {"asserted": 0, "ambiguous": 0, "nontrivial": False})
     tags = ["N5" if N == 5 else ("N6-9" if N < 10 else "N10+"), case["cell"]["kind"], f"frames{F}",
             "mask-partial" if not ppp.all() else "mask-full", case["kind"].split("+")[0].split(":")[0],
-            "outside" if case["outside"] else "inside"]
-    if ambiguous:
+            "outside" if case["outside"] else "inside", "again-" + again] + shear_tags(case)
+    if cnt["ambiguous"]:
         tags.append("has-ambiguous")
-    return {"nontrivial": nontrivial, "tags": tags,
-            "extra": {"particles_asserted": asserted, "particles_ambiguous": ambiguous}}
+    return {"nontrivial": cnt["nontrivial"], "tags": tags,
+            "extra": {"particles_asserted": cnt["asserted"], "particles_ambiguous": cnt["ambiguous"]}}
 
 
 # ---- perfect coordination: open tetrahedral cluster (rotated, scaled) and diamond lattice
@@ -419,7 +534,7 @@ def nematic_case(draw):
             nbl.append(frame)
         maxcn = max(len(x) for fr in nbl for x in fr)
         nmax = draw(st.sampled_from([max(1, maxcn), maxcn + 1, 30]))
-    return {"angles": ang, "nbl": nbl, "Nmax": nmax, "field": field,
+    return {"angles": ang, "nbl": nbl, "Nmax": nmax, "field": field, "reuse": draw(st.booleans()),
             "outputfile": draw(st.sampled_from(["nem", "nem", "out.v2", ""]))}
 
 
@@ -455,7 +570,8 @@ def check_nematic(case):
     require(os.path.exists(of + ".Qtrace.npy"), "Qtrace side file not written")
     same("Qtrace side file", np.load(of + ".Qtrace.npy"), t)
 
-    no2 = NematicOrder(snaps, None)
+    # state between calls: half of the cases ask the same object again (self.QIJ is overwritten by every call)
+    no2 = no if case.get("reuse") else NematicOrder(snaps, None)
     e = arr("tensor(eigvals=True)", no2.tensor(ndim=2, neighborfile=nbfile, Nmax=case["Nmax"], eigvals=True,
                                                outputfile=of), shape=(F, N))
     close("scalar order 2 lambda_max", e, want_e, rtol=1e-9, atol=1e-12)
@@ -465,10 +581,17 @@ def check_nematic(case):
 
     spread = bool(N >= 2 and np.any(np.abs(np.sin(ang - ang[:, :1])) > 1e-6))
     tags = [f"frames{F}", "N1" if N == 1 else ("N2-5" if N <= 5 else "N6+"), case["field"],
-            "neighbours" if case["nbl"] is not None else "raw", "file-" + (of or "empty")]
+            "neighbours" if case["nbl"] is not None else "raw", "file-" + (of or "empty"),
+            "same-object-twice" if case.get("reuse") else "fresh-objects"]
     if case["nbl"] is not None:
         cns = [len(x) for fr in case["nbl"] for x in fr]
         tags.append("cn-varies" if len(set(cns)) > 1 else "cn-equal")
+        # rows shorter than the frame maximum are zero-padded by the reader, i.e. padded with particle 0, whose
+        # Q has eigenvalues +-1/2 (never zero): a leak through the padding changes the average by Q_0/(1+cn)
+        if any(len(set(len(x) for x in fr)) > 1 for fr in case["nbl"]):
+            tags.append("cn-varies-within-frame")
+        if any(0 < len(x) < max(len(y) for y in fr) for fr in case["nbl"] for x in fr):
+            tags.append("padded-rows-with-neighbours")
         if 0 in cns:
             tags.append("has-cn0")
         tags.append("Nmax=maxcn" if case["Nmax"] == max(1, max(cns)) else "Nmax>maxcn")
@@ -573,8 +696,13 @@ FACETS = [
           rule="2D S2 vs reference; non-trivial = some asserted particle has >= 2 contributing neighbours"),
     Facet("s2_3d", s2_case(3), check_s2, quick=400, thorough=12000, describe=describe_s2, shards_quick=2,
           rule="3D S2 vs reference; non-trivial = some asserted particle has >= 2 contributing neighbours"),
-    Facet("tetra_generic", tetra_case(), check_tetra, quick=600, thorough=20000, describe=gen.describe_config,
+    Facet("s2_sheared", s2_case(None, shear=True), check_s2, quick=200, thorough=8000, describe=describe_s2,
+          shards_quick=2, rule="2-3 frames, triclinic, tilt factors differ between frames (same edge lengths), 2D and "
+                               "3D; each frame against the oracle with its own cell; non-trivial as s2_2d"),
+    Facet("tetra_generic", tetra_case(), check_tetra, quick=600, thorough=20000, describe=describe_cfg,
           shards_quick=2, rule="3D, N 5..16 (N = 5 forced in 1/4); non-trivial = an asserted particle with q != 1"),
+    Facet("tetra_sheared", tetra_case(shear=True), check_tetra, quick=250, thorough=10000, describe=describe_cfg,
+          rule="2-3 frames, triclinic, tilt factors differ between frames; each frame with its own cell"),
     Facet("tetra_perfect", perfect_case(), check_perfect, quick=300, thorough=10000, describe=describe_perfect,
           rule="centre of a rotated/scaled regular tetrahedron (+0..5 farther particles) and every diamond site: q = 1"),
     Facet("tetra_far_move", far_case(), check_far, quick=300, thorough=15000, describe=describe_far,
